@@ -25,8 +25,18 @@ FAMILIES = {
     "cast-items": lambda n: "SELECT " + ", ".join("CAST(c%d AS DECIMAL(10, 2))" % i for i in range(n)) + " FROM t",
     "alter-items": lambda n: "ALTER TABLE t " + ", ".join("ADD COLUMN c%d int" % i if False else "DROP COLUMN c%d" % i for i in range(n)),
     "function-statements": lambda n: "; ".join("SELECT f(a, %d) FROM t" % i for i in range(n)),
+    "blank-run": lambda n: "SELECT a," + " " * (8 * n) + "b FROM t",
+    "tab-run": lambda n: "SELECT a,\n" + "\t" * (8 * n) + "b\nFROM t",
+    "blank-lines": lambda n: "SELECT a" + " \n" * (4 * n) + "FROM t",
+    "long-word": lambda n: "SELECT " + "w" * (8 * n) + " FROM t",
+    "long-number": lambda n: "SELECT " + "7" * (8 * n) + " FROM t",
     "nesting": lambda n: "SELECT " + "(" * min(n, 40) + "1" + ")" * min(n, 40) + " + " + " + ".join("1" for _ in range(n)),
 }
+
+
+def micros(ans):
+    """a TIME answer in microseconds; a request the worker had to abandon after its 5 s alarm counts as 5 s"""
+    return int(ans.split(" ")[1]) if ans.startswith("OK ") else 5000000
 
 
 def counters(ans):
@@ -60,8 +70,15 @@ def run(ctx):
     ans = E.run_impl(reqs)
     table = {}
     for (name, n), a in zip(meta, ans):
+        if "handle=" not in a:
+            # the worker abandoned the request (5 s alarm) or failed: on inputs of a few thousand characters that is itself a failure of the property
+            pfam.report(ctx, "no-answer-in-5s", {"kind": "input", "entry": "parse_statements", "dialect": "MYSQL", "input": FAMILIES[name](n), "family": name, "sizes": [n],
+                                                 "observed": a[:200], "oracle": "c19: a text of %d characters must be handled within the worker's 5 s alarm" % len(FAMILIES[name](n)), "how_found": "family"})
+            continue
         table.setdefault(name, []).append((n, a.split(" ")[0], counters(a)))
     for name, rows in table.items():
+        if len(rows) < 2:
+            continue
         ctx.count("family:" + name + ":" + rows[0][1].split(":")[0])
         ctx.sample({"family": name, "sizes": [x[0] for x in rows], "handle": [x[2]["handle"] for x in rows], "cursor": [x[2]["cursor"] for x in rows], "reads": [x[2]["reads"] for x in rows]}, limit=20)
         if any(x[2]["backwards"] > 0 for x in rows):
@@ -80,7 +97,7 @@ def run(ctx):
     for name, mk in FAMILIES.items():
         if name == "nesting":
             continue
-        t = [int(x.split(" ")[1]) for x in E.run_impl(["TIME MYSQL %s 3" % E.enhex(mk(n)) for n in tsizes], jobs=1)]
+        t = [micros(x) for x in E.run_impl(["TIME MYSQL %s 3" % E.enhex(mk(n)) for n in tsizes], jobs=1)]
         expo = math.log(max(t[-1], 1) / max(t[0], 1)) / math.log(tsizes[-1] / tsizes[0])
         ctx.cov.setdefault("growth_exponent", {})[name] = round(expo, 2)
         if expo > 1.6 and t[-1] > 20000:
@@ -88,7 +105,7 @@ def run(ctx):
     for name in suspicious:
         confirmed = 0
         for _ in range(3):
-            t = [int(x.split(" ")[1]) for x in E.run_impl(["TIME MYSQL %s 5" % E.enhex(FAMILIES[name](n)) for n in tsizes], jobs=1)]
+            t = [micros(x) for x in E.run_impl(["TIME MYSQL %s 5" % E.enhex(FAMILIES[name](n)) for n in tsizes], jobs=1)]
             expo = math.log(max(t[-1], 1) / max(t[0], 1)) / math.log(tsizes[-1] / tsizes[0])
             confirmed += expo > 1.6
         if confirmed == 3:
